@@ -41,16 +41,16 @@ def run(tier, seed):
             reps = 1 if quick else 3
             for rep in range(reps):
                 kind = fkinds[(i + rep * 3 + fi) % len(fkinds)]
-                s = regsim.RScn(fmt, kind)
-                if (i + rep) % 2:
-                    s.require_uv = True
-                regcat.CEREMONY[name](s, rng)
-                s.faults = [name]
-                pd, reg = regsim.build(s)
-                form = "record" if name in regcat.RECORD_ONLY else rng.choice(regrun.FORMS)
-                B.run_case(regrun.policy_of(pd), reg, form, "reject", f"{name}/{fmt}", scn=s)
+                for ruv in ((False, True) if name in ("up-clear-required", "no-attested-data", "bs-without-be", "rp-id-other") else ((i + rep) % 2 == 1,)):
+                    s = regsim.RScn(fmt, kind)
+                    s.require_uv = ruv            # every flag-related fault under both user-verification policies
+                    regcat.CEREMONY[name](s, rng)
+                    s.faults = [name]
+                    pd, reg = regsim.build(s)
+                    form = "record" if name in regcat.RECORD_ONLY else rng.choice(regrun.FORMS)
+                    B.run_case(regrun.policy_of(pd), reg, form, "reject", f"{name}/{fmt}", scn=s)
         if fmt == "none":
-            for _ in range(7 if quick else 30):
+            for _ in range(24 if quick else 90):
                 s = regsim.RScn("none", rng.choice(kinds))
                 regcat.none_with_statement(s, rng)
                 pd, reg = regsim.build(s)
